@@ -350,7 +350,7 @@ func (w *World) release(o *op, res opResult) {
 	o.done <- res
 }
 
-const virtualCap = 6 * time.Hour
+const virtualCap = 200 * time.Hour
 
 // Run is the scheduler: the root function of the bubble.
 func (w *World) Run() {
